@@ -99,3 +99,42 @@ JOBS.append({
     "functions": ["tinyjambu_hkdf"], "props": ["C13", "C06"], "default_props": ["C13"], "unwind": 3, "cost": 2, "mem_gb": 4, "mem_share": 0.1,
     "unbounded": "every outlen (all of size_t), all other arguments",
 })
+
+# ---------------------------------------------------------------- PBKDF2
+JOBS += split_grid({
+    "name": "pbkdf2.grid", "files": ["harness/h_pbkdf2.c", PBKDF2] + L2FILES, "defs": ["TJV_CAP=160", "NMEMO=72"],
+    "functions": ["tinyjambu_pbkdf2", "tinyjambu_pbkdf2_f (static, inlined)", "tinyjambu_hmac_*"],
+    "grid": [{"label": "p%d_s%d_c%d_o%d" % (p, sl, c, o), "defs": ["PL=%d" % p, "SL=%d" % sl, "CNT=%d" % c, "OL=%d" % o]}
+             for (p, sl, c, o) in [(8, 4, 1, 32), (5, 8, 2, 33), (64, 8, 3, 1), (65, 0, 1, 40), (0, 0, 0, 31), (24, 36, 2, 64), (63, 5, 2, 0), (9, 20, 2, 70)]],
+    "props": ["C14"], "unwind": 200, "timeout": 400, "cost": 100, "mem_gb": 8, "mem_share": 0.3,
+    "bounded": "(passwordlen, saltlen, count, outlen) in {(8,4,1,32),(5,8,2,33),(64,8,3,1),(65,0,1,40),(0,0,0,31),(24,36,2,64),(63,5,2,0),(9,20,2,70)}; all password and salt bytes symbolic; H arbitrary",
+    "assumes": ["hash API replaced by its contract (stubs/hash_abs.c), discharged by C10/C11"],
+}, 8)
+PB = "tinyjambu_pbkdf2"
+INNER = {"fn": "tinyjambu_pbkdf2_f", "idx": 0, "line": r"while \(count > 2\)",
+         "assigns": "count, __CPROVER_object_whole(T), __CPROVER_object_whole(U), __CPROVER_object_whole(state), tjv_hm_reinits, tjv_hm_finals, tjv_hm_upd, tjv_hm_open",
+         "inv": "count >= 2 && count <= LE(count) && tjv_hm_finals - tjv_hm_finals_at_init == 2 + (LE(count) - count) && LE(count) == tjv_count".replace("LE(", LE + "("),
+         "dec": "count",
+         "map": {"count": "tinyjambu_pbkdf2_f::count", "T": "tinyjambu_pbkdf2_f::T", "U": "tinyjambu_pbkdf2_f::U", "state": "tinyjambu_pbkdf2_f::state",
+                 "tjv_hm_reinits": "tjv_hm_reinits",
+                 "tjv_hm_finals": "tjv_hm_finals", "tjv_hm_upd": "tjv_hm_upd", "tjv_hm_open": "tjv_hm_open",
+                 "tjv_hm_finals_at_init": "tjv_hm_finals_at_init", "tjv_count": "tjv_count"}}
+OUTER = {"fn": PB, "idx": 0, "line": r"while \(outlen > 0\)",
+         "assigns": "out, outlen, blocknum, __CPROVER_object_whole(&state), __CPROVER_object_whole(U), __CPROVER_object_whole(tjv_out0), tjv_hm_inits, tjv_hm_finals, tjv_hm_reinits, tjv_hm_upd, tjv_hm_open, tjv_hm_finals_at_init, tjv_hm_last4, tjv_hm_have4, tjv_hm_last1, tjv_hm_have1",
+         "inv": ("blocknum >= 1 && blocknum - 1 <= LE(outlen) / 32 && outlen <= LE(outlen) && LE(outlen) - outlen == 32 * (blocknum - 1) && out == LE(out) + (LE(outlen) - outlen) && "
+                 "__CPROVER_same_object(out, tjv_out0) && tjv_hm_inits == blocknum - 1 && count == tjv_count").replace("LE(", LE + "("),
+         "dec": "outlen",
+         "map": {"out": PB + "::out", "outlen": PB + "::outlen", "blocknum": PB + "::1::blocknum", "state": PB + "::1::state", "U": PB + "::1::U",
+                 "count": PB + "::count", "tjv_out0": "tjv_out0", "tjv_hm_inits": "tjv_hm_inits", "tjv_hm_finals": "tjv_hm_finals", "tjv_hm_reinits": "tjv_hm_reinits",
+                 "tjv_hm_upd": "tjv_hm_upd", "tjv_hm_open": "tjv_hm_open", "tjv_hm_finals_at_init": "tjv_hm_finals_at_init",
+                 "tjv_hm_last4": "tjv_hm_last4", "tjv_hm_have4": "tjv_hm_have4", "tjv_hm_last1": "tjv_hm_last1", "tjv_hm_have1": "tjv_hm_have1", "tjv_count": "tjv_count"}}
+SHAPE = {"files": ["harness/h_pbkdf2_shape.c", PBKDF2, "stubs/hmac_frame.c", "stubs/memcpy_ghost.c", "stubs/clean_stub.c"],
+         "functions": [PB, "tinyjambu_pbkdf2_f (static)"], "props": ["C14", "C06"], "default_props": ["C14"],
+         "unwind": 34, "stub_unwind": 34, "cost": 40, "mem_gb": 12,
+         "assumes": ["HMAC API replaced by frame-only contract stubs (stubs/hmac_frame.c): values arbitrary, protocol counted and checked"]}
+for cnt in (0, 1):
+    JOBS.append(dict(SHAPE, name="pbkdf2.shape.blocks.c%d" % cnt, defs=["TJV_PBKDF2", "TJV_BLOCKS=%d" % (cnt + 1), "TJV_GHOST_OUT"], loops=[OUTER],
+                     pre_unwind=[("tinyjambu_pbkdf2_f", 0, r"while \(count > 2\)", 1)],
+                     unbounded="outlen <= 2^40 (loop contract on the block loop: block numbering INT32BE(i) at every block, ceil(outlen/32) blocks, exactly outlen bytes), count = %d" % cnt))
+JOBS.append(dict(SHAPE, name="pbkdf2.shape.chain", defs=["TJV_PBKDF2", "TJV_OL=40"], loops=[INNER], unwind=66,
+                 unbounded="every count (all of unsigned long): loop contract on the PRF-chain loop (exactly max(count,1) PRF evaluations per block); outlen = 40"))
